@@ -151,7 +151,9 @@ LUCheck(A, o, n, S, w) ==
                         n * MaxAbsM(o.L) * MaxAbsM(o.U)) THEN "LU.PA=LU"
     ELSE "pass"
 
-(* common preamble of every success clause *)
+(* common preamble of every success clause.  e.fin = FALSE ("<clause>.nan")
+   means some returned number is NaN / infinite or exceeds 2*10^9 fixed-point
+   units (about 2*10^6 in real terms, impossible for a certified premise). *)
 Outcome(e, clause, check) ==
     IF e.status # "ok" THEN <<"bad", clause \o "." \o e.status>>
     ELSE IF ~e.fin THEN <<"bad", clause \o ".nan">>
@@ -363,6 +365,22 @@ EvSolve(e) ==
                ELSE <<"unc", "svd">>)
     ELSE <<"bad", "unknown-method">>
 
+(***************************************************************************)
+(* Model comparison (spec -> impl).  The design models LUModel.tla and     *)
+(* CholeskyModel.tla print, per terminal state, the input and the model's  *)
+(* observable; the harness runs the real code on each input and records    *)
+(* both.  A difference is MODEL-DRIFT (the code may legitimately be        *)
+(* refactored away from the model), never a violation; the property        *)
+(* clauses are judged by the ordinary events recorded for the same inputs. *)
+(***************************************************************************)
+EvLUCmp(e) ==
+    IF /\ e.status = "ok" /\ e.fin
+       /\ SameQ(e.got.L, e.expect.L) /\ SameQ(e.got.U, e.expect.U) /\ e.got.P = e.expect.P
+    THEN <<"pass", "LU=model">> ELSE <<"drift", "LU">>
+EvCholCmp(e) ==
+    IF e.status = e.expect.status /\ (e.status = "ok" => e.fin = e.expect.fin)
+    THEN <<"pass", "Chol=model">> ELSE <<"drift", "Chol">>
+
 (* dispatch *)
 Judge(e) ==
     CASE e.ev = "LU" -> EvLU(e)
@@ -371,5 +389,7 @@ Judge(e) ==
       [] e.ev = "Chol" -> EvChol(e)
       [] e.ev = "SVD" -> EvSVD(e)
       [] e.ev = "Solve" -> EvSolve(e)
+      [] e.ev = "LUCmp" -> EvLUCmp(e)
+      [] e.ev = "CholCmp" -> EvCholCmp(e)
       [] OTHER -> <<"bad", "unknown-event">>
 =============================================================================
